@@ -30,8 +30,10 @@ def run(tier, replay=None):
                                                                                                                       ctx_filter={"top", "fntail", "assign", "arg", "ifcond", "elem"} if tier == "quick" else None), ("value",)))
     fams.append(props.cross_sample(tier, seed))
     fams.append(props.c01_rebinding(tier, seed))
+    fams.append(props.float_chains(tier, seed))
     vs = semcheck.run_families(ck, fams, nontrivial)
     semcheck.binding_selftest(ck, vs)
+    semcheck.symbolic_float_selftest(ck, vs)
     # translation validation + instruction-level trace validation on a slice of the same sessions (CalcVM.tla)
     sl = [v.session for v in vs if v.status == "accept"]
     sl = sl[seed % 3::3][:900] if tier == "quick" else sl[seed % 2::2][:9000]
